@@ -152,6 +152,8 @@ def boundary_points(rng, times):
     pts = {times[0] - rng.pick((1, 3600, 86400)), times[-1] + rng.pick((1, 3600, 86400))}
     for i, t in enumerate(times):
         pts.add(t)
+        if rng.chance(0.15):
+            pts.add(t + 1)  # one second after a row (a sub-second row may sit just before it)
         if i + 1 < len(times) and times[i + 1] - t > 1:
             pts.add(t + (times[i + 1] - t) // 2)
     return sorted(pts)
